@@ -33,6 +33,7 @@ class Unit:
     def __init__(self, crate, module, path, line):
         self.crate, self.module, self.path, self.line = crate, module, path, line
         self.props, self.tier, self.name, self.filter = [], "quick", None, None
+        self.tiers = {}
         self.timeout, self.mem, self.role = 300, None, ""
         self.env = ""  # "K=V[,K2=V2]": harness must be compiled/run with these extra environment variables
         self.meta = {"encodes": [], "bounds": [], "stubs": [], "outside": [], "oracle": []}
@@ -64,8 +65,13 @@ def discover():
                 m = re.match(r"//\s*@check\s+(\S+)\s+(quick|thorough)(.*)$", s)
                 if m:
                     cur = Unit(crate, module, path, i)
-                    cur.props = m.group(1).split(",")
+                    # "C02,C03:thorough quick" = quick tier for C02, thorough-only for C03
                     cur.tier = m.group(2)
+                    cur.props, cur.tiers = [], {}
+                    for tok in m.group(1).split(","):
+                        pid, _, t = tok.partition(":")
+                        cur.props.append(pid)
+                        cur.tiers[pid] = t or cur.tier
                     for kv in m.group(3).split():
                         k, _, v = kv.partition("=")
                         if k == "filter":
@@ -118,8 +124,8 @@ def load_known():
 
 def known_match(known, prop, harness_id, desc):
     for k in known:
-        if k.get("property") != prop:
-            continue
+        if k.get("property") != prop or not k.get("harness") or not k.get("check"):
+            continue  # native_test findings (no solver-side detector) never match a harness failure
         if k.get("harness", "") in harness_id and k.get("check", "") in desc:
             return k
     return None
@@ -295,6 +301,25 @@ def native_test_cmd(release, test_name, extra_cfg=("verif_native", "verif_playba
     return cmd, env
 
 
+def native_finding(spec):
+    """A listed finding that has no solver-side detector (code CBMC cannot execute) carries `native_test=<crate>:<test>`:
+    an integration test of the harness crate, built with the ordinary toolchain against /repo's working tree, that
+    prints FINDING-REPRODUCED / FINDING-ABSENT and never fails. It only decides whether the KNOWN-FINDING line is
+    printed; it never changes the exit status."""
+    crate, _, test = spec.partition(":")
+    tdir = os.path.join(CACHE, "target", crate + "-native")
+    try:
+        p = subprocess.run(["cargo", "test", "--offline", "--test", test, "--target-dir", tdir, "--", "--nocapture"],
+                           cwd=os.path.join(HARNESS_ROOT, crate), env=ENV, stdout=subprocess.PIPE,
+                           stderr=subprocess.STDOUT, text=True, timeout=1200)
+    except Exception as e:  # noqa
+        return "not run", str(e)
+    m = re.search(r"FINDING-(REPRODUCED|ABSENT)[^\n]*", p.stdout)
+    if not m:
+        return "not run", p.stdout[-300:]
+    return m.group(1), m.group(0)[:300]
+
+
 def concrete_playback(unit, harness_id, prop):
     """Ask Kani for the concrete values of the failing checks; write the replay file; run the
     counterexample natively (dev and release profile, stubs inactive => real code).
@@ -384,10 +409,10 @@ def main(argv):
     units = discover()
     if a.list:
         for u in units:
-            log(f"{','.join(u.props):8} {u.tier:8} {u.crate:10} {u.harness_filter:50} t={u.timeout}")
+            log(f"{','.join(p + ':' + u.tiers.get(p, u.tier)[0] for p in u.props):16} {u.crate:10} {u.harness_filter:50} t={u.timeout} mem={u.mem or 14}")
         return 0
     prop = a.prop
-    sel = [u for u in units if prop in u.props and (u.tier == "quick" or a.tier == "thorough")]
+    sel = [u for u in units if prop in u.props and (u.tiers.get(prop, u.tier) == "quick" or a.tier == "thorough")]
     if a.only:
         keep = []
         for u in sel:
@@ -469,6 +494,13 @@ def main(argv):
             continue
         printed.add(key)
         log(f"KNOWN-FINDING: property={prop} {k['what']}")
+    for k in known:
+        if k.get("property") == prop and k.get("native_test") and not a.only:
+            st, detail = native_finding(k["native_test"])
+            if st == "REPRODUCED":
+                log(f"KNOWN-FINDING: property={prop} {k['what']}")
+            else:
+                log(f"  note: listed finding not reproduced natively ({st}): {k['what']} {detail}")
     for r, rp in violations:
         log(f"VIOLATION property={prop} replay={rp}")
     wall = time.time() - t0
